@@ -331,3 +331,21 @@ func idOrNil(n *sbom.Node) string {
 }
 
 func TestC16(t *testing.T) { rapid.Check(t, c16Property) }
+
+// KF-07: GetMatchingNode collects its hash candidates by node identifier, so two different nodes of the list that
+// share an identifier and both agree with the probe count as one candidate: a node is returned (whichever comes first
+// in the list) where the documented rule asks for the ambiguity error.
+func kf07Witness() bool {
+	h := strings.Repeat("1a", 16)
+	f1 := &sbom.Node{Id: "f", Name: "first", Hashes: map[int32]string{1: h}}
+	f2 := &sbom.Node{Id: "f", Name: "second", Hashes: map[int32]string{1: h}}
+	probe := &sbom.Node{Id: "probe", Hashes: map[int32]string{1: h}}
+	g1, e1 := (&sbom.NodeList{Nodes: []*sbom.Node{f1, f2}}).GetMatchingNode(probe)
+	g2, e2 := (&sbom.NodeList{Nodes: []*sbom.Node{f2, f1}}).GetMatchingNode(probe)
+	return e1 == nil && e2 == nil && g1 != nil && g2 != nil && g1 != g2
+}
+
+func TestC16Findings(t *testing.T) {
+	hx.Eval()
+	runFindings(t, "C16", map[string]func() bool{"KF-07": kf07Witness})
+}
